@@ -7,6 +7,7 @@ import CgtModel.Awards
 import CgtModel.Format
 import CgtModel.Validate
 import CgtModel.Schwab
+import CgtModel.Json
 /-! Line protocol: token parsers and printers shared by all driver commands. -/
 namespace Cgt.Wire
 open Cgt
@@ -358,5 +359,57 @@ def showCalcErr (l : List Tx) : CalcErr → String
   | .taxYear (.invalidTaxYear y) => s!"err invalidTaxYear {y}"
   | .unsupportedExemptionYear y => s!"err unsupportedExemptionYear {y}"
   | .invalidDateYear y => s!"err invalidDateYear {y}"
+
+
+/-! JSON values on the wire: `S<hex6>` a string, `N` anything that is neither string nor object,
+    `O{key=value,key=value}` an object (keys are plain words). -/
+mutual
+  def showJV : Json.JV → String
+    | .str s => "S" ++ hex6 s
+    | .other => "N"
+    | .obj fs => "O{" ++ ",".intercalate ((showFields fs).mergeSort (fun a b => decide (a ≤ b))) ++ "}"
+  def showFields : List (Json.Key × Json.JV) → List String
+    | [] => []
+    | (k, v) :: rest => (k.toString ++ "=" ++ showJV v) :: showFields rest
+end
+
+/-- recursive descent with fuel; `none` on anything malformed -/
+def parseJVAux : Nat → List Char → Option (Json.JV × List Char)
+  | 0, _ => none
+  | _ + 1, 'N' :: rest => some (.other, rest)
+  | _ + 1, 'S' :: rest =>
+    let hx := rest.takeWhile (fun c => c.isAlphanum)
+    match unhex6 hx with
+    | some s => some (.str s, rest.dropWhile (fun c => c.isAlphanum))
+    | none => none
+  | n + 1, 'O' :: '{' :: rest =>
+    let rec fields (m : Nat) (cs : List Char) (acc : List (Json.Key × Json.JV)) : Option (List (Json.Key × Json.JV) × List Char) :=
+      match m with
+      | 0 => none
+      | m + 1 =>
+        match cs with
+        | '}' :: r => some (acc.reverse, r)
+        | _ =>
+          let key := cs.takeWhile (fun c => c ≠ '=')
+          match cs.dropWhile (fun c => c ≠ '=') with
+          | '=' :: r =>
+            match parseJVAux n r with
+            | some (v, r') =>
+              let acc' := (Json.Key.ofString (String.ofList key), v) :: acc
+              match r' with
+              | ',' :: r'' => fields m r'' acc'
+              | '}' :: r'' => some (acc'.reverse, r'')
+              | _ => none
+            | none => none
+          | _ => none
+    match fields (rest.length + 1) rest [] with
+    | some (fs, r) => some (.obj fs, r)
+    | none => none
+  | _ + 1, _ => none
+
+def parseJV? (s : String) : Option Json.JV :=
+  match parseJVAux (s.length + 1) s.toList with
+  | some (v, []) => some v
+  | _ => none
 
 end Cgt.Wire
